@@ -1429,9 +1429,10 @@ func specLayout(s *PrintCtx) string {
 }
 
 //@ func (*PrintCtx).appendTimestamp
-//@   props C16
-//@   requires s != nil
-//@   assigns s.buf, s.lastRead, s.buf[:], ghost.utcIn, ghost.utcOut
+//@   props C16 C02
+//@   requires s != nil && 0 <= s.off && s.off <= len(s.buf)
+//@   assigns s.buf, s.off, s.lastRead, s.buf[:], ghost.utcIn, ghost.utcOut
+//@   ensures [C02.inv] 0 <= s.off && s.off <= len(s.buf) && implies(old(s.off) == 0, s.off == 0)
 //@   at call (time.Time).AppendFormat assert [C16.layout] callee.layout == specLayout(s)
 //@   at call (time.Time).AppendFormat assert [C16.zone] implies(!specWantUTC(s), callee.t == z)
 //@   at call (time.Time).AppendFormat assert [C16.zone] implies(specWantUTC(s), callee.t == ghost.utcOut && ghost.utcIn == z)
